@@ -242,8 +242,12 @@ def check_exit(ctx, case, path, model_exit, verdict, tags):
     ctx.count("cli-exit=%d" % code)
     expect_last = "The input file is a valid BIOM-formatted file." if verdict == "valid" else \
         ("The input file is not a valid BIOM-formatted file." if verdict == "invalid" else None)
-    if code != model_exit or (code == 0) != (verdict == "valid"):
+    if (code == 0) != (verdict == "valid"):
+        # the command's exit status contradicts the validator's own result
         ctx.fail(case, "exit_status", tags + ("cli",), detail={"exit": code, "verdict": verdict})
+    elif code != model_exit:
+        ctx.diverge(case, "exit status differs from the model", tags + ("cli",),
+                    detail={"exit": code, "model_exit": model_exit, "verdict": verdict})
     elif expect_last is not None and last != expect_last:
         ctx.diverge(case, "last report line of validate-table", tags + ("cli",), detail={"last": last})
 
